@@ -229,9 +229,13 @@ func runC05(c *Ctx) {
 	streams := []struct {
 		name    string
 		n, nvar int
-	}{{"layout", c.N(500, 4000), c.N(5, 10)}, {"order", c.N(200, 2500), c.N(6, 10)}, {"prices", c.N(120, 2500), c.N(6, 10)}, {"reject", c.N(100, 2500), c.N(7, 10)}}
+	}{{"layout", c.N(500, 4000), c.N(5, 10)}, {"order", c.N(200, 2500), c.N(6, 10)}, {"prices", c.N(120, 2500), c.N(6, 10)}, {"reject", c.N(100, 2500), c.N(7, 10)},
+		{"requote", c.N(100, 2500), c.N(6, 10)}}
 	for _, st := range streams {
 		stream, nvar := st.name, st.nvar
+		// the streams about price directives share their variants (one directive to the top, same-day shuffle of the prices) and
+		// the model comparison on every variant
+		pricey := stream == "prices" || stream == "requote"
 		for i := 0; i < st.n; i++ {
 			if !c.Want(stream, i) {
 				continue
@@ -256,9 +260,13 @@ func runC05(c *Ctx) {
 				if r.Chance(1, 2) {
 					f.To = 0
 				}
-			} else if stream == "prices" {
+			} else if pricey {
 				var val string
-				j, kind, val, tags = c05GenPrices(r)
+				if stream == "requote" {
+					j, kind, val, tags = c05GenRequote(r)
+				} else {
+					j, kind, val, tags = c05GenPrices(r)
+				}
 				if r.Bool() {
 					// a plain valued report: nothing filtered, nothing mapped, so that every position shows with its value
 					f = BalFlags{Val: val, Interval: Pick(r, []int{0, 1, 2, 3, 3, 4}), Diff: r.Chance(1, 4), NoClose: r.Chance(1, 3), CSV: r.Chance(1, 3)}
@@ -352,11 +360,11 @@ func runC05(c *Ctx) {
 					})
 				case v == 3 && stream == "order": // the file stays chronological, only the transactions of each day change places
 					order = c05SameDayShuffle(r, j)
-				case v == 3 && stream == "prices": // the smallest change of order: one directive moves to the top of the file
+				case v == 3 && pricey: // the smallest change of order: one directive moves to the top of the file
 					q := r.Intn(len(order))
 					copy(order[1:q+1], order[:q])
 					order[0] = q
-				case v == 4 && stream == "prices": // the file stays chronological, only the price directives of each day change places
+				case v == 4 && pricey: // the file stays chronological, only the price directives of each day change places
 					order = c05SameDayShuffleKind(r, j, 'p')
 				default:
 					for q := len(order) - 1; q > 0; q-- {
@@ -369,7 +377,7 @@ func runC05(c *Ctx) {
 				// the byte layout of the variant's files has a generator of its own (the directive orders and tree shapes of a
 				// case do not move when the layout tables change); the original, variant 0, keeps the printed layout
 				lr := c.Rng(stream+"/bytes", i*64+v)
-				if (v <= 2 && (v == 0 || stream == "reject" || r.Chance(1, 2))) || (v == 3 && stream == "order") || ((v == 3 || v == 4) && stream == "prices") {
+				if (v <= 2 && (v == 0 || stream == "reject" || r.Chance(1, 2))) || (v == 3 && stream == "order") || ((v == 3 || v == 4) && pricey) {
 					text := c05Text(j, order, raw)
 					if v > 0 {
 						var items []layItem
@@ -502,7 +510,7 @@ func runC05(c *Ctx) {
 		} else {
 			c.Class(fmt.Sprintf("c05/%s/%s/check%d/shapes%d/n%s", k.stream, k.kind, b0.Check, len(shapes), bucket(len(k.j.Dirs))))
 			c.Tag(fmt.Sprintf("%s-verdict:%s/exit%d", k.stream, k.kind, b0.Check))
-			if k.stream == "prices" {
+			if k.stream == "prices" || k.stream == "requote" {
 				c.Tag(fmt.Sprintf("prices-balance:%s/exit%d", k.kind, b0.BalC))
 			}
 		}
@@ -549,7 +557,7 @@ func runC05(c *Ctx) {
 			}
 			// the model on the permuted directive list gives the same report as the real code on the variant
 			// (not for a journal with a directive the structured form cannot express)
-			if (vi < 2 || (k.stream == "prices" && vi < 5)) && len(k.raw) == 0 {
+			if (vi < 2 || ((k.stream == "prices" || k.stream == "requote") && vi < 5)) && len(k.raw) == 0 {
 				pj := &Journal{}
 				for _, q := range vr.Order {
 					pj.Dirs = append(pj.Dirs, k.j.Dirs[q])
@@ -1347,4 +1355,84 @@ func c05FillAssertions(j *Journal) {
 		bal.Qty = sum.String()
 		j.Dirs[i].Balances = []JBal{bal}
 	}
+}
+
+// c05GenRequote builds a journal for a VALUED report with a QUOTE HISTORY: after the days that establish the prices, later
+// days re-declare SEVERAL commodity pairs at once, some with exactly the value the price table currently holds for the pair
+// (a repeat: the table does not move), some with another value - C03's c03Requote (reused: pairs quoted in both directions,
+// values of either direction from a pool of one or two, exact reciprocals, trailing zeros), called 1-4 times so that 1-12
+// pairs have a history and the days of the journal carry 2-6 price directives of which any subset is a repeat. Whatever the
+// price stage remembers between two directives of a day (a "changed" flag, the last pair, a cache of the last normalisation)
+// must not make the day's prices depend on which of them arrives last: the variants put the price directives of each day in
+// other orders and spread them over include trees. C05 excludes two prices for one commodity pair on one day (in either
+// direction: file order decides there), so of such directives only the first is kept. Base journal: the lifecycle generator
+// with prices (held commodities quoted in CHF) or one of c05GenPrices' graphs (the repeat then sits on a link of a chain).
+func c05GenRequote(r *RNG) (*Journal, string, string, []string) {
+	var j *Journal
+	var tags []string
+	val, kind := "CHF", "lifecycle"
+	if r.Chance(1, 3) {
+		j, kind, val, tags = c05GenPrices(r)
+		kind = "graph-" + kind
+	} else {
+		o := JGenOpts{MaxAccounts: r.Range(2, 5), MaxDays: r.Range(2, 6), BaseDay: 737000 + r.Intn(1500), SpanDays: Pick(r, []int{3, 10, 30, 200}), Prices: true, Valuation: "CHF",
+			PricesFirstDayOnly: r.Chance(1, 3)}
+		j, tags = GenJournal(r, o)
+	}
+	for n := r.Range(1, 4); n > 0; n-- {
+		tags = append(tags, c03Requote(r, j, val)...)
+	}
+	// no pair twice on one day
+	type pk struct {
+		day  int
+		a, b string
+	}
+	seen := map[pk]bool{}
+	kept := j.Dirs[:0:0]
+	perDay := map[int]int{}
+	for _, d := range j.Dirs {
+		if d.Kind == 'p' {
+			k := pk{d.Date, d.Com, d.Target}
+			if k.a > k.b {
+				k.a, k.b = k.b, k.a
+			}
+			if seen[k] {
+				continue
+			}
+			seen[k] = true
+			perDay[d.Date]++
+		}
+		kept = append(kept, d)
+	}
+	j.Dirs = kept
+	// coverage: days on which one pair repeats the stored value (of that direction, as written or as the reciprocal the table
+	// derives is not tracked: written values only) next to a pair whose value moves
+	type dk struct{ a, b string }
+	last := map[dk]string{}
+	repeatDay, moveDay := map[int]bool{}, map[int]bool{}
+	for _, d := range j.Dirs {
+		if d.Kind != 'p' {
+			continue
+		}
+		k := dk{d.Com, d.Target}
+		if p, ok := last[k]; ok && c03SameNumber(p, d.Price) {
+			repeatDay[d.Date] = true
+		} else {
+			moveDay[d.Date] = true
+		}
+		last[k] = d.Price
+		delete(last, dk{d.Target, d.Com})
+	}
+	mixed, busiest := "no-mixed-day", 0
+	for day := range repeatDay {
+		if moveDay[day] {
+			mixed = "mixed-day"
+		}
+	}
+	for _, n := range perDay {
+		if n > busiest {
+			busiest = n
+		}
+	}
+	return j, kind, val, append(tags, "requote:"+kind, "requote:"+mixed, "requote-prices-per-day:"+bucket(busiest))
 }
